@@ -97,6 +97,7 @@ def family():
         "union", "chain")
     add("union_map_rec", [{"type": "map", "values": "int"}, _rec("Rm", [f("a", "int")])], "union", "unionrec")
     add("rec_dictnull", _rec("Dn", [f("n", {"type": "null"}), f("u", [{"type": "null"}, "int"]), f("k", "int")]), "rec")
+    add("map_key_is_field", _rec("Mk", [f("k0", "int"), f("m", {"type": "map", "values": "int"}), f("z", "string")]), "rec")
     # defaults / omitted fields
     add("rec_defaults", _rec("Dflt", [f("a", "int", default=7), f("u", ["null", "int"], default=None),
                                       f("r", "long")]), "defaults")
